@@ -996,7 +996,9 @@ class CFG:
                                 was_modified = True
                                 gen_d[production.head][-1].append(new_word)
                                 if production.head == cfg.start_symbol:
-                                    yield new_word
+                                    # The caller gets its own list: this
+                                    # one is combined into longer words
+                                    yield list(new_word)
             if was_modified:
                 total_no_modification = 0
             else:
